@@ -688,6 +688,23 @@ def run(tier, seed):
                 ecli.append({"what": "-D 'p=%s' with `title ~p~` prints %s (the value given with -D must be substituted as it is)" % (val, titles or prc.stderr[-200:]),
                              "case": {"files": {"play.cfg": "title ~p~\n"}, "args": ["-n", "-p", "-q", "-D", "p=" + val, "play.cfg"]},
                              "tags": {"kind": "define-with-comma" if "," in val else "cli-define"}})
+        # an `include` given through -s / -r is an include like any other: the -I directories are searched
+        os.makedirs(os.path.join(dcli, "inc"))
+        base = "role r\n  :a true\nend\ncast\n  x plays r\nend\nscript\n  scene a entails for x: a\nend\naudience\n  bob audits throughout\n  bob expects always: t >= 0\nend\n"
+        with open(os.path.join(dcli, "base.cfg"), "w") as fcli:
+            fcli.write(base)
+        with open(os.path.join(dcli, "inc", "extra.cfg"), "w") as fcli:
+            fcli.write("storyline aa\n")
+        with open(os.path.join(dcli, "inc", "interp.cfg"), "w") as fcli:
+            fcli.write("ignore bob disappointment\n")
+        for flag, line, want in (("-s", "include extra.cfg", "storyline aa"), ("-r", "include interp.cfg", "ignore bob disappointment")):
+            argv = ["-n", "-p", "-q", "-I", "inc", flag, line, "base.cfg"]
+            prc = subprocess.run([e2e.BIN] + argv, cwd=dcli, capture_output=True, text=True, timeout=30)
+            rep.count("cli-include through " + flag)
+            if prc.returncode != 0 or want not in [l.strip() for l in prc.stdout.splitlines()]:
+                ecli.append({"what": "%s '%s' with -I inc: %s (a file found only through -I must be found)" % (flag, line, (prc.stderr or prc.stdout).strip().splitlines()[:2]),
+                             "case": {"files": {"base.cfg": base, "inc/extra.cfg": "storyline aa\n", "inc/interp.cfg": "ignore bob disappointment\n"}, "args": argv},
+                             "tags": {"kind": "cli-include-search-path"}})
     finally:
         shutil.rmtree(dcli, ignore_errors=True)
     known_cli = [f for f in ecli if rep.match_known(f["tags"]) is not None]
